@@ -20,6 +20,9 @@ fn main() {
         std::process::exit(3);
     }
     let check = args[1].clone();
+    if check == "noop" {
+        return;
+    }
     if check == "selftest" {
         match io::selftest().and_then(|()| checks::selftest()) {
             Ok(()) => {
